@@ -99,6 +99,7 @@ private:
     std::vector<SDIterator> itemIterators{};
     bool isCompleted{ true };
     uint32_t counter{ 0 };
+    mutable StructuredData current{}; // Note: owns dereferenced element, cache of the set can be cleared by other iterators
 
   public:
     explicit Iterator(const SDPowerSet& boolean, bool isCompleted = false) noexcept;
@@ -152,6 +153,7 @@ private:
     std::vector<SDIterator> componentIters{};
     bool isCompleted{ true };
     uint32_t counter{ 0 };
+    mutable StructuredData current{}; // Note: owns dereferenced element, cache of the set can be cleared by other iterators
 
   public:
     explicit Iterator(const SDDecartian& base, bool isCompleted = false);
